@@ -17,6 +17,18 @@ CLAIMED = {
    note="Process-kill durability model (no power loss). The shim sees every os.* call and *os.File method in pkg/resmgr/cache; ctime, pending marks and cached pretty names are excluded from the comparison because the property does not list them."),
 }
 
+
+E1NOTE = "Trusted: the runtime model (kubelet encodings, containerd lifecycle rules, told view), verifgen's rewrites and the overlay accessors (cross-checked against GetTopologyZones/ExportResourceData where the property names them). Pod-resources client absent; agent in local-config mode; cold-start completion not delivered."
+def e1(prop, ref, text, tech):
+    return dict(engine="nrisim", level="exploration", ref=ref, technique="deterministic simulation: real resmgr+cache+policy over a generated sysfs machine, simulated runtime/NRI stub/clock/fs/map order, seeded request histories with failing requests, reconfiguration and restart+Synchronize; "+tech, text=text, note=E1NOTE)
+CLAIMED.update({
+ "C01": e1("C01","6 (C01), 5 (E1)","After every request of a seeded history the told view of every live container and an in-package snapshot of pools and grants are checked: exclusive sets pairwise disjoint, in no other container's told cpuset, in no pool's shared set; every told cpuset inside the configured available CPUs; reserved CPUs only told to reserved-class containers and never mixed. Genuine defects found are listed as known findings with a cause classifier in the signature.","exclusivity oracle over told view + grant snapshot after every request"),
+ "C02": e1("C02","6 (C02), 5 (E1)","After every request under the balloons policy: balloon cpusets pairwise disjoint and inside the available set, idle set == available minus balloons, every managed container in exactly one balloon, told cpuset == balloon CPUs + shared idle CPUs (one thread per core when hyperthreads are hidden, reference computed from the machine model), shared idle CPUs outside all balloons, never isolated and complete for the sharing scope (reference from the machine model), min/max CPUs and instances, non-empty balloons sized to their containers' requests.","balloons partition/confinement oracle after every request"),
+ "C03": e1("C03","6 (C03), 5 (E1)","After every request under topology-aware: per pool the shared/reserved milli-CPU promised in the subtree <= 1000 x CPUs left in the pool's shared/reserved set, the ledger (grant portions == per-pool counters, never negative), zone Available never negative, every CPU-pinned container has a non-empty allowed set, exclusive CPU count == a reference eligibility model written from the documentation, isolated CPUs all-or-none and only when eligible, cpu.shares == kubelet encoding of the granted capacity.","pool capacity ledger + eligibility reference model after every request"),
+ "C05": e1("C05","6 (C05), 5 (E1)","After every request under both policies: told view == cache view on cpuset, mems, shares, quota, period, memory limit, swap for every created/running container (an empty set recorded in the cache is read as 'no pinning' and not compared); nothing pending after the reply; the CreateContainer adjustment equals the cache values of the created container; at most one update per container per reply; no update for a stopped/removed container.","told-view == cache-view oracle after every request"),
+ "C12": e1("C12","6 (C12), 5 (E1)","Every adjustment, returned update and pushed update of every request is inspected: a container opted out of CPU pinning (cpu.preserve at container/pod/bare level, balloons preserve rule, pinCPU off) is never told a cpuset it does not already hold; a container opted out of memory pinning (memory.preserve, pinMemory off globally or for its balloon type) is never told memory nodes other than those it already had.","opt-out oracle over every adjustment/update"),
+})
+
 NOT_BUILT = {
 }
 
